@@ -213,3 +213,393 @@ def rule_index_form_arms(rep, fb, floor=5, name="CLONE.index-form-arms"):
             r.check(len(forms) == 1, "%s#switch@%d" % (f["qual"], nsw), "%s:%d" % (f["file"], s[-1] if isinstance(s[-1], int) else f["line"]),
                     "%s: the arms of the switch over Index::Form differ beyond the index width (%s)" % (f["qual"], " vs ".join("/".join(v) for v in forms.values())), detail="arms are clones modulo width")
     return r.done()
+
+
+# ------------------------------------------------------------------------------------------------
+# a freshly numbered set of union alternatives fits the 8-bit tag
+
+_TAGCOUNT_EXCEPTIONS = {
+    "UnionArrayOf::offsets_and_flattened": "the alternatives are this union's own contents_, flattened one for one: their number is unchanged",
+    "Content::merge_as_union": "exactly two alternatives (this, other), tags 0 and 1 are literals",
+    "UnionType::empty": "tags of length 0: no tag value is ever stored",
+    "UnionArrayOf::carry": "tags gathered from tags_ by the carry; contents_ is passed on unchanged",
+}
+
+
+def rule_union_tag_count(rep, fb, floor=4, name="WIDTH.union-tag-count"):
+    r = rep.rule(name, "a function that allocates a fresh tags index (an Index8 / IndexOf<T> named *tags built from a length) numbers a set of alternatives it has assembled itself; it compares the number of "
+                 "alternatives (a .size()) with kMaxInt8 and throws, because the 8-bit tag (and an 8-bit loop counter `T tag`) wraps beyond 127 and the tags written are garbage or uninitialised", floor=floor)
+    seen = 0
+    for f in fb.lib_funcs(inst=False):
+        ds = [d for d in find_all(f["body"], lambda k: k[0] == "decl" and isinstance(k[1], str) and k[1].endswith("tags") and re.match(r"(const )?(Index8|IndexOf<T>|IndexOf<int8_t>)$", str(k[2]))
+                         and k[3] is not None and k[3][0] == "ctor" and len(k[3][2]) == 1)]
+        if not ds:
+            continue
+        seen += 1
+        q = f["qual"]
+        if q in _TAGCOUNT_EXCEPTIONS:
+            r.excepted(q, _TAGCOUNT_EXCEPTIONS[q])
+            continue
+        guard = find_all(f["body"], lambda k: k[0] == "if" and "kMaxInt8" in repr(k[1]) and find_all((k[1],), lambda m: m[0] == "mcall" and m[1] == "size") and find_all(k[2], lambda m: m[0] == "throw"))
+        r.check(bool(guard), q, "%s:%d" % (f["file"], ds[0][-1] if isinstance(ds[0][-1], int) else f["line"]),
+                "%s numbers union alternatives into a fresh 8-bit tags index `%s` without refusing more than kMaxInt8 alternatives" % (q, ds[0][1]), detail="size() compared with kMaxInt8, throws")
+    if seen < 4:
+        raise AnalysisError("only %d functions allocating a fresh tags index found" % seen)
+    return r.done()
+
+
+# ------------------------------------------------------------------------------------------------
+# a counter advanced by the user's slice step saturates at the loop bound
+
+def rule_range_step(rep, fb, floor=4, name="OVERFLOW.range-step"):
+    r = rep.rule(name, "in a kernel that takes the slice's `step` (any int64 the user wrote), a loop counter is advanced by step only through the saturating form "
+                 "`j = (bound - j > step ? j + step : bound)` (mirrored for a negative step): `j += step` overflows for steps near 2^63, the wrapped counter passes the loop test again "
+                 "and the kernel reads and writes out of bounds", floor=floor)
+    for fs in fb.kernel_functions().values():
+        for f in fs:
+            if f["inst"] or "step" not in dict(f["params"]):
+                continue
+            step = ("var", "step")
+
+            def strip(e):
+                while e and e[0] in ("cast", "narrow", "widen"):
+                    e = e[3]
+                return e
+            n = 0
+            guarded = set()
+            for c in find_all(f["body"], lambda k: k[0] == "cond"):
+                if find_all((c[1],), lambda k: k == step) and find_all((c[1],), lambda k: k[0] == "bin" and k[1] == "-"):
+                    for b in find_all((c[2], c[3]), lambda k: k[0] == "bin" and k[1] == "+" and step in (strip(k[2]), strip(k[3]))):
+                        guarded.add(id(b))
+            for k in find_all(f["body"], lambda k: (k[0] == "aug" and k[1] in ("+", "-") and strip(k[3]) == step) or (k[0] == "bin" and k[1] == "+" and step in (strip(k[2]), strip(k[3])))):
+                n += 1
+                key = "%s#%d" % (f["qual"], n)
+                where = "%s:%d" % (f["file"], k[-1] if isinstance(k[-1], int) else f["line"])
+                r.check(k[0] == "bin" and id(k) in guarded, key, where, "%s advances a counter by the slice step without the saturating guard (overflow for |step| near 2^63)" % f["qual"], detail="saturating step")
+    return r.done()
+
+
+# ------------------------------------------------------------------------------------------------
+# an offsets output is complete: element 0 is written on every path, not only inside the loop
+
+def rule_offsets_first(rep, fb, floor=10, name="KWRITES.offsets-first"):
+    r = rep.rule(name, "a kernel that fills a writable `*offsets` parameter through `X[i + 1] = ...` in a loop also writes X[0] before its first loop on every path (a top-level assignment, or an if/else "
+                 "whose both arms assign it): with zero iterations X[0] is the only element, the caller reads it (as the length of the content, as the start of the first list), and the buffer is uninitialised", floor=floor)
+
+    def strip(e):
+        while e and e[0] in ("cast", "narrow", "widen"):
+            e = e[3]
+        return e
+
+    def writes0(stmts, pn):
+        """X[0] assigned on every path through this statement list, before any loop"""
+        for s in stmts:
+            if s[0] == "assign" and s[1][0] == "idx" and s[1][1] == ("var", pn) and strip(s[1][2]) == ("const", 0):
+                return True
+            if s[0] == "if" and s[3] and writes0(s[2], pn) and writes0(s[3], pn):
+                return True
+            if s[0] in ("for", "while", "dowhile", "foreach"):
+                return False
+        return False
+    for name_, fs in sorted(fb.kernel_functions().items()):
+        for f in fs:
+            if f["inst"]:
+                continue
+            for pn, pt in f["params"]:
+                if "offsets" not in pn or "const" in pt or "*" not in pt:
+                    continue
+                plus1 = find_all(f["body"], lambda k: k[0] == "assign" and k[1][0] == "idx" and k[1][1] == ("var", pn) and find_all((k[1][2],), lambda q: q[0] == "bin" and q[1] == "+" and ("const", 1) in (strip(q[2]), strip(q[3]))))
+                if not plus1:
+                    continue
+                r.check(writes0(f["body"], pn), "%s#%s" % (f["qual"], pn), "%s:%d" % (f["file"], f["line"]),
+                        "%s fills %s[i + 1] in a loop but does not write %s[0] on every path before the loop: for an input of length 0 the single offset is left uninitialised" % (f["qual"], pn, pn), detail="%s[0] written first" % pn)
+    return r.done()
+
+
+# ------------------------------------------------------------------------------------------------
+# merged arrays keep only the parameters all inputs share, on every arm
+
+def rule_merge_parameters(rep, fb, floor=8, name="META.merge-parameters"):
+    r = rep.rule(name, "a mergemany / reverse_merge that builds its result with a local `parameters` copied from parameters_ narrows it with util::merge_parameters(parameters, <other>.parameters()) for the arrays "
+                 "it merges; where the function has alternative arms (tuple / record) that each loop over the same arrays, every arm does so - otherwise the result claims parameters (__record__, __array__) "
+                 "that some of the merged arrays do not have", floor=floor)
+
+    def is_merge(k):
+        return k[0] == "call" and "merge_parameters" in repr(k[1]) and k[2] and k[2][0] == ("var", "parameters")
+    for f in fb.lib_funcs(inst=False):
+        if f["name"] not in ("mergemany", "reverse_merge"):
+            continue
+        if not find_all(f["body"], lambda k: k[0] == "decl" and k[1] == "parameters" and "Parameters" in str(k[2])):
+            continue
+        where = "%s:%d" % (f["file"], f["line"])
+        r.check(bool(find_all(f["body"], is_merge)), f["qual"], where, "%s builds its result with a copy of parameters_ and never narrows it by the other arrays' parameters" % f["qual"], detail="merge_parameters called")
+        if (f.get("cls") or "") == "IndexedArrayOf":
+            # the merged content is a concatenation of the inputs' contents: categories are no longer unique, the marker that asserts it must go
+            drops = find_all(f["body"], lambda k: k[0] == "if" and "categorical" in repr(k[1]) and find_all(k[2], lambda m: m[0] == "mcall" and m[1] == "erase" and m[3] == ("var", "parameters")))
+            r.check(bool(drops), f["qual"] + ":categorical", where, "%s concatenates the contents of indexed arrays and keeps __array__ = \"categorical\" on the result although the concatenated categories are not unique (the validity check rejects it)" % f["qual"],
+                    detail="categorical marker erased")
+        n = 0
+        for s in find_all(f["body"], lambda k: k[0] == "if" and k[3]):
+            la = [l for l in find_all(s[2], lambda k: k[0] == "foreach")]
+            lb = [l for l in find_all(s[3], lambda k: k[0] == "foreach")]
+            for a in la:
+                for b in lb:
+                    if a[3] != b[3] or a[3][0] != "var":
+                        continue
+                    ma, mb = bool(find_all(a[4], is_merge)), bool(find_all(b[4], is_merge))
+                    if not (ma or mb):
+                        continue
+                    n += 1
+                    r.check(ma and mb, "%s#arms%d" % (f["qual"], n), "%s:%d" % (f["file"], (b if ma else a)[-1] if isinstance((b if ma else a)[-1], int) else f["line"]),
+                            "%s narrows the parameters in one arm's loop over `%s` but not in the sibling arm's loop over the same arrays" % (f["qual"], a[3][1]), detail="both arms narrow")
+    return r.done()
+
+
+# ------------------------------------------------------------------------------------------------
+# an integer handed in from outside subscripts a member vector only between two bounds
+
+def rule_child_accessor_bounds(rep, fb, floor=8, name="BOUND.child-accessor"):
+    r = rep.rule(name, "a method of the node, form and type classes (src/libawkward/array, type, util::key) that subscripts a data-member vector (contents_, types_, recordlookup ...) with one of its own int64_t parameters cast to size_t has tested that parameter on both sides "
+                 "(`p < 0` and `p >= size`) in an `if` that throws: these methods are bound to Python unchanged (form.content(i), layout.field(i), type.type(i)), and a negative or too large i reads outside the vector", floor=floor)
+    n = 0
+    for f in fb.lib_funcs(inst=False):
+        ints = [pn for pn, pt in f["params"] if re.match(r"^(const )?(int64_t|long|ssize_t)$", str(pt).strip())]
+        if not ints or not (f.get("cls") or f["qual"] == "util::key") or not re.match(r"src/libawkward/(array|type)/|src/libawkward/util\.cpp", f["file"]):
+            continue
+        for p in ints:
+            subs = find_all(f["body"], lambda k: k[0] == "idx" and (k[1][0] == "member" and k[1][1] == ("this",) or (k[1][0] == "deref" and "member" in repr(k[1])))
+                            and k[2][0] in ("cast", "var") and (k[2] == ("var", p) or (k[2][0] == "cast" and k[2][3] == ("var", p))))
+            ats = find_all(f["body"], lambda k: k[0] == "mcall" and k[1] == "at" and len(k[4]) == 1 and (k[4][0] == ("var", p) or (k[4][0][0] == "cast" and k[4][0][3] == ("var", p))))
+            if not subs and not ats:
+                continue
+            n += 1
+            lower = upper = False
+            for s in find_all(f["body"], lambda k: k[0] == "if" and find_all(k[2], lambda m: m[0] == "throw")):
+                for c in find_all((s[1],), lambda k: k[0] == "bin" and k[1] in ("<", "<=", ">", ">=") and ("var", p) in (k[2], k[3])):
+                    other = c[3] if c[2] == ("var", p) else c[2]
+                    if other == ("const", 0):
+                        lower = True
+                    else:
+                        upper = True
+            # a wrapped index (regularize_at / `if (p < 0) p += n`) counts as tested below once it is re-tested; keep to the plain idiom
+            r.check(lower and upper, "%s(%s)" % (f["qual"], p), "%s:%d" % (f["file"], f["line"]),
+                    "%s subscripts a member vector with its parameter `%s` after testing %s" % (f["qual"], p, "only the upper bound" if upper else ("only the lower bound" if lower else "neither bound")), detail="0 <= %s < size tested" % p)
+    if n < 4:
+        raise AnalysisError("only %d integer child accessors found" % n)
+    return r.done()
+
+
+# ------------------------------------------------------------------------------------------------
+# an option node steps aside only for another option node
+
+def rule_option_shortcut(rep, fb, floor=2, name="CANON.option-shortcut"):
+    r = rep.rule(name, "in simplify_optiontype of the option node classes and their forms, the arm that returns content_ itself (dropping this node) is guarded by dynamic_casts to option classes only "
+                 "(IndexedOptionArray*/Form, ByteMasked, BitMasked, Unmasked): a non-option IndexedArray / IndexedForm in that test drops the option from the type", floor=floor)
+    optional = re.compile(r"^(const )?(IndexedOptionArray(32|64)|IndexedOptionForm|ByteMasked(Array|Form)|BitMasked(Array|Form)|Unmasked(Array|Form)) \*$")
+    for f in fb.lib_funcs(inst=False):
+        if f["name"] != "simplify_optiontype":
+            continue
+        for s in find_all(f["body"], lambda k: k[0] == "if" and len(k[2]) == 1 and k[2][0][0] == "return" and k[2][0][1] == ("member", ("this",), "content_")):
+            casts = [c[2] for c in find_all((s[1],), lambda k: k[0] == "cast" and k[1] == "dynamic")]
+            bad = [c for c in casts if not optional.match(str(c))]
+            r.check(bool(casts) and not bad, f["qual"], "%s:%d" % (f["file"], s[-1] if isinstance(s[-1], int) else f["line"]),
+                    "%s returns content_ in place of this option node when the content is %s, which is not an option type" % (f["qual"], ", ".join(bad) or "anything"), detail="content_ returned only for %d option classes" % len(casts))
+    return r.done()
+
+
+# ------------------------------------------------------------------------------------------------
+# fillna ends at the first option level on every encoding of an option
+
+def rule_option_fillna_stops(rep, fb, floor=4, name="SIBLING.option-fillna"):
+    r = rep.rule(name, "fillna of an option node replaces the missing values of that node and stops: none of the option encodings (IndexedOptionArray in its ISOPTION arm, ByteMaskedArray, BitMaskedArray, UnmaskedArray) "
+                 "calls fillna on its content_ - one that does fills the None values of deeper levels too, which the caller (ak.fill_none with an axis) asked to keep", floor=floor)
+    seen = 0
+    for f in fb.lib_funcs(inst=False):
+        cls = f.get("cls") or ""
+        if f["name"] != "fillna" or cls not in ("IndexedArrayOf", "ByteMaskedArray", "BitMaskedArray", "UnmaskedArray"):
+            continue
+        seen += 1
+        scope = f["body"]
+        if cls == "IndexedArrayOf":
+            arms = [s[2] for s in find_all(f["body"], lambda k: k[0] == "if" and k[1] == ("var", "ISOPTION"))]
+            if not r.check(bool(arms), cls + "::fillna:arm", "%s:%d" % (f["file"], f["line"]), "IndexedArrayOf::fillna has no `if (ISOPTION)` arm any more"):
+                continue
+            scope = arms[0]
+        deep = find_all(scope, lambda k: k[0] == "mcall" and k[1] == "fillna" and find_all((k[3],), lambda m: m == ("member", ("this",), "content_")))
+        r.check(not deep, cls + "::fillna", "%s:%d" % (f["file"], deep[0][-1] if deep and isinstance(deep[0][-1], int) else f["line"]),
+                "%s::fillna calls fillna on its content_: the missing values of deeper levels are filled as well" % cls, detail="stops at this option level")
+    if seen < 4:
+        raise AnalysisError("fillna of the four option encodings not found (%d)" % seen)
+    return r.done()
+
+
+# ------------------------------------------------------------------------------------------------
+# what indexes a list node's content was computed from that node's own starts/stops/offsets
+
+def rule_list_carry_origin(rep, fb, floor=12, name="ORIGIN.list-carry"):
+    r = rep.rule(name, "in ListArray and ListOffsetArray methods, an Index X handed to content_.carry(X) has been written from this node's own starts_/stops_/offsets_: by a kernel call that also receives one of them "
+                 "(or a local derived from them), or by setitem_at_nowrap with such a value. Positions taken from somewhere else (the rows of a jagged index, a counter) address content_ only when the node "
+                 "happens to be compact and zero-based", floor=floor)
+    OWN = ("starts_", "stops_", "offsets_")
+    for f in fb.lib_funcs(inst=False):
+        if (f.get("cls") or "") not in ("ListArrayOf", "ListOffsetArrayOf"):
+            continue
+        body = f["body"]
+        sites = find_all(body, lambda k: k[0] == "mcall" and k[1] == "carry" and find_all((k[3],), lambda m: m == ("member", ("this",), "content_")) and k[4] and k[4][0][0] == "var")
+        if not sites:
+            continue
+        derived = set()
+
+        def mentions(e):
+            return bool(find_all((e,), lambda m: (m[0] == "member" and m[1] == ("this",) and m[2] in OWN) or (m[0] == "var" and m[1] in derived)
+                                 or (m[0] == "mcall" and m[1] in ("starts", "stops", "offsets", "compact_offsets64") and m[3] == ("this",))))
+        grew = True
+        while grew:
+            grew = False
+            for d in find_all(body, lambda k: k[0] == "decl" and k[3] is not None):
+                if d[1] not in derived and mentions(d[3]):
+                    derived.add(d[1])
+                    grew = True
+            for c in find_all(body, lambda k: k[0] == "call" and "kernel::" in repr(k[1])):
+                if any(mentions(a) for a in c[2]):
+                    for a in c[2]:
+                        for m in find_all((a,), lambda m: (m[0] == "mcall" and m[1] == "data" and m[3][0] == "var") or (m[0] == "addr" and m[1][0] == "var")):
+                            v = m[3][1] if m[0] == "mcall" else m[1][1]
+                            if v not in derived:
+                                derived.add(v)
+                                grew = True
+            for c in find_all(body, lambda k: k[0] == "mcall" and k[1] == "setitem_at_nowrap" and k[3][0] == "var"):
+                if any(mentions(a) for a in c[4]) and c[3][1] not in derived:
+                    derived.add(c[3][1])
+                    grew = True
+        n = 0
+        for s in sites:
+            n += 1
+            x = s[4][0][1]
+            r.check(x in derived, "%s#carry%d(%s)" % (f["qual"], n, x), "%s:%d" % (f["file"], s[-1] if isinstance(s[-1], int) else f["line"]),
+                    "%s carries content_ with `%s`, which no statement of the function computes from this node's starts_/stops_/offsets_" % (f["qual"], x), detail="derived from own offsets")
+    return r.done()
+
+
+# ------------------------------------------------------------------------------------------------
+# a position that is refused when too large is also refused when negative
+
+def rule_kernel_one_sided(rep, fb, floor=5, name="KBOUND.two-sided"):
+    r = rep.rule(name, "in a kernel, a signed position that is tested against its upper bound in an `if` that returns failure(...) and is then used as a subscript is also tested against 0 somewhere in the kernel "
+                 "(`x < 0`, `0 <= x`, a regularising `if (x < 0) x += n`): the check shows the author does not trust the value, and a negative one reads before the buffer (contradiction rule: one side checked, the other used unchecked)", floor=floor)
+
+    def strip(e):
+        while e and e[0] in ("cast", "narrow", "widen"):
+            e = e[3]
+        return e
+    flip = {"<": ">", "<=": ">=", ">": "<", ">=": "<="}
+    n = 0
+    for name_, fs in sorted(fb.kernel_functions().items()):
+        for f in fs:
+            if f["inst"]:
+                continue
+            ptypes = dict(f["params"])
+            allcmps = find_all(f["body"], lambda k: k[0] == "bin" and k[1] in ("<", "<=", ">", ">=", "==", "!="))
+            for s in find_all(f["body"], lambda k: k[0] == "if" and find_all(k[2], lambda m: m[0] == "return" and m[1] and "failure" in repr(m[1]))):
+                for c in find_all((s[1],), lambda k: k[0] == "bin" and k[1] in ("<", "<=", ">", ">=")):
+                    for side, other, op in ((strip(c[2]), strip(c[3]), c[1]), (strip(c[3]), strip(c[2]), flip[c[1]])):
+                        if op not in (">", ">=") or side[0] not in ("idx", "var") or other[0] == "const":
+                            continue
+                        v = repr(cs_noline(side))
+                        if not find_all(f["body"], lambda k: k[0] == "idx" and repr(cs_noline(strip(k[2]))) == v):
+                            continue
+                        # unsigned values cannot be negative
+                        base = side[1][1] if side[0] == "idx" and side[1][0] == "var" else None
+                        if base and re.search(r"\bu?int(8|16|32|64)_t\b", ptypes.get(base, "")) and "uint" in ptypes.get(base, ""):
+                            continue
+                        n += 1
+                        low = any(("const", 0) in (strip(q[2]), strip(q[3])) and v in (repr(cs_noline(strip(q[2]))), repr(cs_noline(strip(q[3])))) for q in allcmps)
+                        from .kspec import unparse as _u, cexpr as _c
+                        r.check(low, "%s#%s" % (f["qual"], _u(_c(side))[:40]), "%s:%d" % (f["file"], s[-1] if isinstance(s[-1], int) else f["line"]),
+                                "%s refuses %s when it is too large but never compares it with 0 before using it as a subscript" % (f["qual"], _u(_c(side))[:40]), detail="also compared with 0")
+    return r.done()
+
+
+# ------------------------------------------------------------------------------------------------
+# an explicit length that the constructor takes on trust is examined by the validity check
+
+def rule_valid_explicit_length(rep, fb, floor=2, name="VALID.explicit-length"):
+    r = rep.rule(name, "a node class whose constructor stores a caller-supplied `length` in length_ without refusing negative values tests `length_ < 0` in its validityerror: every other length comparison there "
+                 "(len(field) < length, len(mask)*8 < length) is vacuous for a negative length, and the documented invariant is length >= 0", floor=floor)
+    by_cls = {}
+    for f in fb.lib_funcs(inst=False):
+        by_cls.setdefault(f.get("cls") or "", []).append(f)
+    n = 0
+    for cls, fs in sorted(by_cls.items()):
+        ctors = [f for f in fs if f["name"] == cls and any(nm == "length_" and find_all((init,), lambda k: k == ("var", "length")) for nm, init in (f.get("inits") or ()))]
+        if not ctors:
+            continue
+        refused = all(find_all(c["body"], lambda k: k[0] == "if" and find_all((k[1],), lambda m: m[0] == "bin" and m[1] in ("<", "<=", ">", ">=") and ("length" in repr(m))) and find_all(k[2], lambda m: m[0] == "throw")
+                               and find_all((k[1],), lambda m: m == ("const", 0))) for c in ctors)
+        if refused:
+            continue
+        vs = [f for f in fs if f["name"] == "validityerror"]
+        if not vs:
+            continue
+        n += 1
+        v = vs[0]
+        ok = bool(find_all(v["body"], lambda k: k[0] == "if" and find_all((k[1],), lambda m: m[0] == "bin" and m[1] in ("<", ">") and ("member", ("this",), "length_") in (m[2], m[3]) and ("const", 0) in (m[2], m[3]))
+                           and find_all(k[2], lambda m: m[0] == "return")))
+        r.check(ok, cls + "::validityerror", "%s:%d" % (v["file"], v["line"]), "%s takes its length on trust and %s::validityerror never tests length_ < 0" % (cls, cls), detail="length_ < 0 reported")
+    if n < 2:
+        raise AnalysisError("only %d classes with a trusted explicit length found" % n)
+    return r.done()
+
+
+# ------------------------------------------------------------------------------------------------
+# the byte extent of a strided array: (n - 1) steps only when there are items
+
+def rule_extent_zero(rep, fb, floor=1, name="DIM.extent-zero"):
+    r = rep.rule(name, "wherever libawkward or the pybind11 layer computes a byte extent from `(shape[i] - 1) * strides[i]`, the same function tests that shape entry against 0: for a zero-length dimension the term is "
+                 "one step backward, which a negative stride turns into a positive extent over memory that holds no item", floor=floor)
+    from .binding import lifted
+    n = 0
+    seen = set()
+    for f in lifted(fb, with_lib=True):
+        for m in find_all(f["body"], lambda k: k[0] == "bin" and k[1] == "*" and "strides" in repr(k) and "shape" in repr(k)):
+            if id(m) in seen:
+                continue
+            minus = [s for s in (m[2], m[3]) if find_all((s,), lambda q: q[0] == "bin" and q[1] == "-" and "shape" in repr(q[2]) and q[3] == ("const", 1))]
+            if not minus:
+                continue
+            seen.add(id(m))
+            n += 1
+            sh = find_all((minus[0],), lambda q: q[0] == "idx" and "shape" in repr(q[1]))
+            tested = bool(sh) and bool(find_all(f["body"], lambda k: k[0] == "if" and find_all((k[1],), lambda q: q[0] == "bin" and q[1] in ("==", "<=", "<", "!=", ">") and ("const", 0) in (q[2], q[3]) and cs_noline(sh[0]) in (cs_noline(q[2]), cs_noline(q[3])))))
+            r.check(tested, "%s#%d" % (f["qual"], n), "%s:%d" % (f["file"], m[-1] if isinstance(m[-1], int) else f["line"]), "%s adds (shape - 1) * stride without testing that shape entry for 0" % f["qual"], detail="zero-length dimension handled")
+    return r.done()
+
+
+# ------------------------------------------------------------------------------------------------
+# a count built by multiplication is compared with limit / factor before each step
+
+def rule_count_product(rep, fb, floor=3, name="OVERFLOW.count-product"):
+    r = rep.rule(name, "a local count that a loop multiplies by a computed factor (`n *= size - j + 1`: binomial coefficients - not an element of a shape vector, whose product is bounded by the items in memory) is compared "
+                 "with a limit divided by that factor, in an `if` that throws or returns failure, before the multiplication: the count later sizes buffers (times sizeof) that another kernel fills with the true number of items", floor=floor)
+    funcs = []
+    for name_, fs in sorted(fb.kernel_functions().items()):
+        funcs += [f for f in fs if not f["inst"]]
+    funcs += list(fb.lib_funcs(inst=False))
+    n = 0
+    for f in funcs:
+        for lp in find_all(f["body"], lambda k: k[0] in ("for", "while")):
+            body = lp[2]
+            for i, a in enumerate(body):
+                top = a[3] if a[0] == "aug" else None
+                while top and top[0] in ("cast", "narrow", "widen"):
+                    top = top[3]
+                if not (a[0] == "aug" and a[1] == "*" and a[2][0] == "var" and top[0] == "bin" and top[1] in ("+", "-")):
+                    continue
+                n += 1
+                fac = cs_noline(a[3])
+                guard = [s for s in body[:i] if s[0] == "if" and find_all(s[2], lambda q: q[0] == "throw" or (q[0] == "return" and q[1] and "failure" in repr(q[1])))
+                         and find_all((s[1],), lambda q: q[0] == "bin" and q[1] in (">", ">=", "<", "<=") and a[2] in (q[2], q[3])
+                                      and any(x[0] == "bin" and x[1] == "/" and cs_noline(x[3]) == fac for x in (q[2], q[3])))]
+                r.check(bool(guard), "%s#%s" % (f["qual"], a[2][1]), "%s:%d" % (f["file"], a[-1] if isinstance(a[-1], int) else f["line"]),
+                        "%s multiplies the count `%s` by a computed factor without first comparing it with limit / factor" % (f["qual"], a[2][1]), detail="overflow refused")
+    return r.done()
